@@ -1,6 +1,7 @@
 package harness
 
 import (
+	"errors"
 	"testing"
 	"time"
 
@@ -182,4 +183,75 @@ func advanceClock(c *Case, d *mapDriver) {
 
 	time.Sleep(dur)
 	c.Tracef("Advance(%v) -> now=%d", dur, time.Now().UnixNano())
+}
+
+const c07bRule = "aborted Walk / Dump (callback or writer fails after k entries) followed by one of every mutating operation on all keys, outside a bubble with a generous real-time watchdog (20 s for microsecond operations); oracle: every operation completes (no lock is left behind) and the results agree with refMap; " +
+	"non-trivial = the walk was aborted before its end"
+
+// TestC07AbortedWalk: a Walk stopped by its callback leaves the backend fully usable.
+func TestC07AbortedWalk(t *testing.T) {
+	runCheck(t, "C07", "C07AbortedWalk", c07bRule, func(c *Case) {
+		kind := backendKinds[c.Pick("backend", len(backendKinds))]
+		be := newCaseBackend(c, kind, cache.Config{ExpirationJitter: -1, DeleteExpiredJobInterval: farFuture, DeleteExpiredAfter: farFuture})
+		d := newMapDriver(c, be, 0, -1)
+		n := c.Int("entries", 1, len(baseKeys))
+
+		for i := 0; i < n; i++ {
+			d.write(baseKeys[i], d.token(baseKeys[i]), 0, false)
+		}
+
+		k := c.Int("abort-after", 0, n)
+		viaDump := c.Bool("via-dump")
+
+		if k < n {
+			c.NonTrivial()
+		}
+
+		done := make(chan interface{}, 1)
+
+		go func() {
+			// oracle failures raised here are handed over to the case goroutine
+			defer func() { done <- recover() }()
+
+			if viaDump {
+				_, _ = be.Dump(&failingWriter{left: 40 * k})
+			} else {
+				d.walkAbort(k)
+			}
+
+			// every kind of mutation on every shard that holds data
+			for i := 0; i < n; i++ {
+				d.write(baseKeys[i], d.token(baseKeys[i]), 0, false)
+				d.del(baseKeys[i])
+				d.write(baseKeys[i], d.token(baseKeys[i]), time.Hour, false)
+			}
+
+			d.expireAll()
+			be.Cleanup()
+			d.deleteAll()
+		}()
+
+		select {
+		case r := <-done:
+			if r != nil {
+				panic(r)
+			}
+		case <-time.After(20 * time.Second):
+			c.Failf("lock-left-behind", "%s: operations after a Walk aborted at entry %d of %d (via Dump=%v) did not complete within 20 s: a lock is still held", kind, k, n, viaDump)
+		}
+
+		d.compareAll()
+	})
+}
+
+type failingWriter struct{ left int }
+
+func (w *failingWriter) Write(p []byte) (int, error) {
+	if w.left <= 0 {
+		return 0, errors.New("writer failed")
+	}
+
+	w.left -= len(p)
+
+	return len(p), nil
 }
